@@ -78,8 +78,11 @@ func (w *withContext) SafeDetails() []string {
 func encodeWithContext(_ context.Context, err error) (string, []string, proto.Message) {
 	w := err.(*withContext)
 	p := &errorspb.TagsPayload{}
-	for _, t := range w.tags.Get() {
-		p.Tags = append(p.Tags, errorspb.TagPayload{Tag: t.Key(), Value: t.ValueStr()})
+	if w.tags != nil {
+		// A decoded error may carry only the redacted form of its tags.
+		for _, t := range w.tags.Get() {
+			p.Tags = append(p.Tags, errorspb.TagPayload{Tag: t.Key(), Value: t.ValueStr()})
+		}
 	}
 	return "", w.SafeDetails(), p
 }
